@@ -53,6 +53,9 @@ let handle toks =
              | _ -> failwith "cont" in
            (match continuity_check (go k r []) with None -> "ok" | Some i -> Printf.sprintf "bad %d" (int_of_nat i))
        | _ -> "BAD")
+  | "timefields" :: rest ->
+      let a, _ = parse_adt (ints rest) in
+      if time_fields_ok a then "ok" else "err 80"
   | "cell" :: rest ->
       (match ints rest with
        | [kind; vk; dv; which; ov; pos; n; r; rechunk; ga] ->
